@@ -314,6 +314,7 @@ func (r *runner) run(ctx context.Context, isStream bool, input any, opts ...Opti
 				subGraphInterrupts,
 				interruptAfterNodes,
 				append(completedTasks, cpt...),
+				nil,
 				checkPointID,
 				isSubGraph,
 				cm,
@@ -353,7 +354,8 @@ func (r *runner) run(ctx context.Context, isStream bool, input any, opts ...Opti
 					interruptRerunNodes,
 					subGraphInterrupts,
 					interruptAfterNodes,
-					append(completedTasks, newCompletedTasks...),
+					newCompletedTasks, // completedTasks have been folded into the channels already: nextTasks come from them
+					nextTasks,
 					checkPointID,
 					isSubGraph,
 					cm,
@@ -465,6 +467,7 @@ func (r *runner) handleInterruptWithSubGraphAndRerunNodes(
 	subGraphInterrupts map[string]*subGraphInterruptError,
 	interruptAfterNodes []string,
 	completeTasks []*task,
+	readyTasks []*task, // tasks already created and not yet submitted: saved as they are
 	checkPointID *string,
 	isSubGraph bool,
 	cm *channelManager,
@@ -536,6 +539,9 @@ func (r *runner) handleInterruptWithSubGraphAndRerunNodes(
 		} else {
 			cp.Inputs[t.nodeKey] = t.call.action.inputZeroValue()
 		}
+	}
+	for _, t := range readyTasks {
+		cp.Inputs[t.nodeKey] = t.input
 	}
 	err = r.checkPointer.convertCheckPoint(cp, isStream)
 	if err != nil {
